@@ -751,6 +751,14 @@ val run_build_chunk : chunk_cfg -> (nat * n) list -> kv list
 
 val run_build_item : item_cfg -> (nat * n) list -> kv list
 
+val obs_unchecked : (nat * bytes) wres -> obs
+
+val run_helper_pad : n -> (nat * n) -> kv list
+
+val run_helper_hdr : n -> n -> n -> (nat * n) -> kv list
+
+val run_helper_chk : n -> kv list
+
 type op =
 | OPad of n
 | ONtp of n
